@@ -186,7 +186,8 @@ pub fn run(cx: &mut Ctx) {
         let salt_len = *rng.pick(&[16usize, 16, 16, 8, 9, 24, 32, 64]);
         let salt = rng.bytes(salt_len);
         let ops = rng.range(1, 3) as u64;
-        let mem_kib = *rng.pick(&[8usize, 9, 16, 33, 64]);
+        // mostly small; one case in 10 has segments longer than one address block and not a multiple of it, or a multi-MiB size
+        let mem_kib = if rng.chance(1, 10) { *rng.pick(&[516usize, 600, 1000, 2930]) } else { *rng.pick(&[8usize, 9, 16, 33, 64]) };
         let hash_length = *rng.pick(&[32usize, 32, 16, 33, 64, 128]);
         let (cfg, _cfg_desc) = build_config(&mut rng, ops, mem_kib * 1024, hash_length, Some(salt_len));
         // libsodium's construction: secret key = crypto_pwhash(outlen = 32, ...) ; public key = X25519 base mult
